@@ -24,7 +24,7 @@ for p in props:
         "evidence_file": f"evidence/{pid}.json",
         "replay_cmd_template": f"bin/check {pid} --replay {{path}}",
         "engine": "pyvc",
-        "level_claimed": {"category": spec.get("level", "proof"), "text": LEVEL_TEXT[pid], "design_ref": f"DESIGN.md §3 {pid}"},
+        "level_claimed": {"category": spec.get("level", "proof"), "text": LEVEL_TEXT[pid], "design_ref": f"DESIGN.md §8.2 (as built) and §3 {pid} (design)"},
         "level_note": spec.get("level_note", ""),
         "technique": spec.get("technique", "contract-based deductive verification: VCs generated from the real functions' AST against side-car contracts, discharged by z3; native replay of counter-models"),
     })
@@ -41,6 +41,8 @@ manifest = {
     "engines": [
         {"name": "pyvc", "path": "pyvc/", "serves_properties": [c["property_id"] for c in checks],
          "kind_free_text": "AST-driven symbolic executor / VC generator for Python with side-car contracts (contracts/), z3 back end, model reification and native replay (replay/)"},
+        {"name": "bounded", "path": "bounded/", "serves_properties": [c["property_id"] for c in checks if PROPS[c["property_id"]].get("bounded")],
+         "kind_free_text": "bounded stand-ins: native enumeration of a stated finite scope against an executable contract (labelled bounded, never counted as proved)"},
     ],
     "checks": checks,
     "not_applicable": [{"property_id": k, "reason": v} for k, v in NOT_APPLICABLE.items() if k not in PROPS],
